@@ -3,6 +3,7 @@ mod observe;
 mod report;
 mod rx_xref;
 mod rx_store;
+mod rx_pagetree;
 
 fn main() {
     let args: Vec<String> = std::env::args().collect();
@@ -14,6 +15,7 @@ fn main() {
     match args[1].as_str() {
         "xref" => rx_xref::run(&args[2], &args[3], &opts),
         "store" => rx_store::run(&args[2], &args[3], &opts),
+        "pagetree" => rx_pagetree::run(&args[2], &args[3], &opts),
         m => {
             eprintln!("unknown module {}", m);
             std::process::exit(2);
